@@ -414,6 +414,28 @@ theorem lru_get_after_add (c : Cache K V) (hc : 1 ≤ c.cap) (k : K) (v : V) :
   unfold Cache.get
   rw [this]
 
+/-- invalidation works: right after `Remove k` both `Get k` and `Peek k` miss (the next read goes to the source),
+    in every cache state -/
+theorem lru_miss_after_remove (c : Cache K V) (k : K) :
+    ((c.remove k).get k).2 = none ∧ (c.remove k).peek k = none := by
+  have h : (c.remove k).lookup k = none := by
+    unfold Cache.lookup Cache.remove Cache.onShard
+    simp only [if_pos, Option.map_eq_none_iff, List.find?_eq_none]
+    intro x hx
+    have := (List.mem_filter.mp hx).2
+    simpa using this
+  refine ⟨?_, h⟩
+  unfold Cache.get
+  rw [h]
+
+/-- … and after `Purge` every key misses -/
+theorem lru_miss_after_purge (c : Cache K V) (k : K) :
+    (c.purge.get k).2 = none ∧ c.purge.peek k = none := by
+  have h : c.purge.lookup k = none := by simp [Cache.lookup, Cache.purge]
+  refine ⟨?_, h⟩
+  unfold Cache.get
+  rw [h]
+
 variable {D C : Type}
 
 /-- `rebuild_cached_eq_cold` (abstract document, `apply` = applying one change): after any
